@@ -153,6 +153,27 @@ func ruleSignedRem(r *Run, pkgs []string, floor int) {
 				if !ok || bt.Info()&types.IsInteger == 0 || bt.Info()&types.IsUnsigned != 0 {
 					continue
 				}
+				// truncate-then-step-down (q := p / s; if p < 0 { q-- }) is not floor division: it is one too
+				// low for negative exact multiples of s
+				if bo.Op == token.QUO && bo.Referrers() != nil {
+					if kind, _, isAxis := axisOf(stripConv(bo.X)); isAxis && kind != "bs" {
+						for _, ref := range *bo.Referrers() {
+							sub, ok := ref.(*ssa.BinOp)
+							if !ok || sub.Op != token.SUB || sub.X != ssa.Value(bo) {
+								continue
+							}
+							if one, isK := constInt(sub.Y); !isK || one != 1 {
+								continue
+							}
+							if negAt(stripConv(bo.X), sub) {
+								n++
+								k++
+								r.violation(fmt.Sprintf("%s:coordinate-quotient#%d:truncate-then-decrement", fname(f), k),
+									"the block coordinate of a negative coordinate is computed as p / s − 1: for negative exact multiples of the block size that is one block too low (the repository's idiom is (p − s + 1) / s)", w.pos(sub.Pos()))
+							}
+						}
+					}
+				}
 				// a quotient taken where a coordinate is known negative must be the floor idiom (p - s + 1) / s
 				if bo.Op == token.QUO {
 					handled := false
